@@ -45,7 +45,7 @@ def zoo():
             y = torch.sin(3 * x.sum(-1)) + 0.1 * torch.randn(n, generator=g, dtype=D)
         return x, y, xs
 
-    from checks.c18_models import Exact, Hadamard, SVGP
+    from checks.c18_models import Exact, Hadamard, SVGP, DKL
 
     def tweak(model, seed, scale=0.25):
         """deterministic, seed-dependent non-default hyperparameters (raw space)"""
@@ -106,6 +106,20 @@ def zoo():
         model.covar_module.base_kernel.register_constraint("raw_lengthscale", Interval(0.05 + s, 4.0 + 5 * s))    # position AND width differ
         model.likelihood.noise_covar.register_constraint("raw_noise", GreaterThan(1e-3 + s / 10))
     exact("exact_constraints", lambda lik: K.ScaleKernel(K.RBFKernel()), post=with_constraints)
+
+    # deep kernels: the feature map's parameters and ScaleToBounds' running range (buffers rewritten by training-mode calls, read in eval mode)
+    def dkl(name, kern_fn, d=1):
+        def build(seed):
+            torch.manual_seed(seed)
+            x, y, xs = data(7, d=d)
+            x, xs = 0.6 * x - 0.9, 0.6 * xs - 0.9          # inputs off-centre: the range seen in training is not the constructor's default range
+            lik = L.GaussianLikelihood()
+            model = DKL(x, y, lik, kern_fn()).to(D)
+            tweak(model, seed)
+            return dict(model=model, lik=model.likelihood, x=(x,), y=y, xs=(xs,), kind="exact", running=True)
+        fams[name] = build
+    dkl("dkl_scaled", lambda: K.ScaleKernel(K.RBFKernel()))
+    dkl("kiss_dkl", lambda: K.ScaleKernel(K.GridInterpolationKernel(K.RBFKernel(), grid_size=16, num_dims=1, grid_bounds=[(-1.0, 1.0)])), d=2)
 
     def hadamard(seed):
         torch.manual_seed(seed)
@@ -220,6 +234,11 @@ def diverge(m, seed):
                 p.add_(0.05 * (torch.rand(p.shape, generator=g, dtype=p.dtype) - 0.5))
     for mod in mods:      # parameters changed outside an optimiser step: drop evaluation-mode caches the way train() does
         mod.train()
+    if m.get("running"):
+        # families with running statistics (rewritten by every training-mode call): a parameter change in training is followed by a
+        # training-mode call, as in an optimiser loop - otherwise the first evaluation after the change reads the range of the OLD parameters
+        # and the second one the range of the new ones, on either model alike (history dependence, not a persistence question)
+        to_save_point(m, "called")
 
 
 def to_save_point(m, point):
